@@ -11,10 +11,10 @@ git checkout -q -- . && git checkout -q --detach $(git -C /repo rev-parse HEAD) 
 find . -name '*.rs' -not -path './target/*' -not -path './SEED/*' -print0 | xargs -0 touch
 run_demo() {  # prints the demo's output (stdout+stderr first lines, exit status)
   if [ -f $SD/demo.sh ]; then
-    ( timeout 120 sh $SD/demo.sh 2>&1 | grep -v "^stack backtrace\|^ *[0-9]*:\|^ *at \|^note:" | head -60 )
+    ( timeout 120 sh $SD/demo.sh 2>&1 | grep -v "^stack backtrace\|^  *[0-9][0-9]*: \|^ *at \|^note:" | head -60 )
   elif [ -f $SD/demo.bas ]; then
     cargo build --offline -q --bin rusty_basic 2>/dev/null
-    ( timeout 120 ./target/debug/rusty_basic $SD/demo.bas < /dev/null 2>&1 | grep -v "^stack backtrace\|^ *[0-9]*:\|^ *at \|^note:" | head -60; echo "exit=${PIPESTATUS[0]}" )
+    ( timeout 120 ./target/debug/rusty_basic $SD/demo.bas < /dev/null 2>&1 | grep -v "^stack backtrace\|^  *[0-9][0-9]*: \|^ *at \|^note:" | head -60; echo "exit=${PIPESTATUS[0]}" )
   else
     echo "no-bas-demo"
   fi
